@@ -75,10 +75,14 @@ type c11pFault struct {
 	kind   string // see c11pMenu
 	target string // one | two | all : which honest parties are hit
 	just   string // justification policy of a dealer that is complained about
+	pos    string // where inside the bundle the edited / bogus entry sits, or which variant of the edit
 }
 
 func (f c11pFault) label() string {
 	s := f.kind
+	if f.pos != "" {
+		s += "/" + f.pos
+	}
 	if f.target != "" {
 		s += "/" + f.target
 	}
@@ -121,9 +125,13 @@ func (s *c11pScn) faultClass() string {
 	seen := map[string]bool{}
 	var out []string
 	for _, f := range s.faults {
-		if !seen[f.kind] {
-			seen[f.kind] = true
-			out = append(out, f.kind)
+		k := f.kind
+		if strings.HasPrefix(f.just, "equivocate") {
+			k += "/" + f.just // conflicting justification bundles are an equivocation class of their own
+		}
+		if !seen[k] {
+			seen[k] = true
+			out = append(out, k)
 		}
 	}
 	sort.Strings(out)
@@ -713,15 +721,36 @@ func (s *c11pSess) byzDeals(b *c11pParty) []*dkgp.DealBundle {
 	}
 	targets := map[int]bool{}
 	switch f.kind {
-	case "deal-garbage", "deal-wrongshare", "deal-misdirected", "deal-missing":
+	case "deal-garbage", "deal-wrongshare", "deal-misdirected", "deal-missing", "deal-badplaintext", "deal-relabel-far", "deal-relabel-dup":
 		for _, h := range c11pTargets(holders, f.target) {
 			targets[h.id] = true
 		}
+	}
+	// smallest index that no member of the new group has (in the middle for shapes with a gap)
+	freeIdx := uint32(0)
+	for used := true; used; {
+		used = false
+		for _, h := range s.newMembers() {
+			if uint32(h.newIdx) == freeIdx {
+				used = true
+				freeIdx++
+			}
+		}
+	}
+	bogusDeal := func(idx uint32) dkgp.Deal {
+		ct, _ := ecies.Encrypt(s.hs, b.pub, []byte("0123456789abcdef0123456789abcdef"), sha256.New)
+		return dkgp.Deal{ShareIndex: idx, EncryptedShare: ct}
+	}
+	insertDeal := func(ds []dkgp.Deal, at int, d dkgp.Deal) []dkgp.Deal {
+		out := append([]dkgp.Deal(nil), ds[:at]...)
+		out = append(out, d)
+		return append(out, ds[at:]...)
 	}
 	build := func(poly *share.PriPoly) *dkgp.DealBundle {
 		_, commits := poly.Commit(s.hs.Point().Base()).Info()
 		bundle := &dkgp.DealBundle{DealerIndex: uint32(b.oldIdx), Public: commits, SessionID: c11pBytes(s.nonce)}
 		nm := s.newMembers()
+		relabelAt := -1
 		for k, h := range nm {
 			if h.id == b.id {
 				continue // like the honest code, no deal for itself
@@ -737,6 +766,11 @@ func (s *c11pSess) byzDeals(b *c11pParty) []*dkgp.DealBundle {
 					continue
 				case "deal-wrongshare":
 					v = s.hs.Scalar().Add(v, s.hs.Scalar().One())
+				case "deal-badplaintext":
+					// properly encrypted for the holder, but the plaintext is not a scalar encoding
+					ct, _ := ecies.Encrypt(s.hs, to, s.rng.Bytes(5), sha256.New)
+					bundle.Deals = append(bundle.Deals, dkgp.Deal{ShareIndex: uint32(h.newIdx), EncryptedShare: ct})
+					continue
 				case "deal-misdirected":
 					to = nm[(k+1)%len(nm)].pub
 					if to.Equal(h.pub) {
@@ -749,7 +783,57 @@ func (s *c11pSess) byzDeals(b *c11pParty) []*dkgp.DealBundle {
 			if err != nil {
 				panic("harness: ecies: " + err.Error())
 			}
-			bundle.Deals = append(bundle.Deals, dkgp.Deal{ShareIndex: uint32(h.newIdx), EncryptedShare: ct})
+			idx := uint32(h.newIdx)
+			if targets[h.id] && f.kind == "deal-relabel-far" {
+				idx = c11pFarIndex + 3 // the holder's (valid) deal carries an index nobody has
+			}
+			if targets[h.id] && f.kind == "deal-relabel-dup" {
+				// the holder's deal carries the index of another honest holder, which then appears twice
+				idx = c11pFarIndex + 3
+				for _, o := range holders {
+					if o.id != h.id {
+						idx = uint32(o.newIdx)
+						break
+					}
+				}
+			}
+			if idx != uint32(h.newIdx) {
+				relabelAt = len(bundle.Deals)
+			}
+			bundle.Deals = append(bundle.Deals, dkgp.Deal{ShareIndex: idx, EncryptedShare: ct})
+		}
+		// edits of the bundle's internal structure
+		nd := len(bundle.Deals)
+		switch f.kind {
+		case "deal-relabel-far", "deal-relabel-dup":
+			// move the relabelled entry: keep | first | last
+			at := relabelAt
+			if at >= 0 && f.pos != "keep" && f.pos != "" {
+				d := bundle.Deals[at]
+				rest := append(append([]dkgp.Deal(nil), bundle.Deals[:at]...), bundle.Deals[at+1:]...)
+				if f.pos == "first" {
+					bundle.Deals = insertDeal(rest, 0, d)
+				} else {
+					bundle.Deals = insertDeal(rest, len(rest), d)
+				}
+			}
+		case "deal-extra-far":
+			switch f.pos {
+			case "first":
+				bundle.Deals = insertDeal(bundle.Deals, 0, bogusDeal(c11pFarIndex+uint32(s.rng.IntN(7))))
+			case "mid":
+				bundle.Deals = insertDeal(bundle.Deals, nd/2, bogusDeal(freeIdx))
+			default:
+				bundle.Deals = insertDeal(bundle.Deals, nd, bogusDeal(c11pFarIndex+uint32(s.rng.IntN(7))))
+			}
+		case "deal-order":
+			if f.pos == "reversed" {
+				for i, j := 0, nd-1; i < j; i, j = i+1, j-1 {
+					bundle.Deals[i], bundle.Deals[j] = bundle.Deals[j], bundle.Deals[i]
+				}
+			} else if nd > 1 {
+				bundle.Deals = append(append([]dkgp.Deal(nil), bundle.Deals[1:]...), bundle.Deals[0])
+			}
 		}
 		return bundle
 	}
@@ -760,13 +844,13 @@ func (s *c11pSess) byzDeals(b *c11pParty) []*dkgp.DealBundle {
 	out := []*dkgp.DealBundle{bundle}
 	unjustified := func() bool {
 		switch f.just {
-		case "nojust", "badjust", "sidjust", "partialjust":
+		case "nojust", "badjust", "sidjust", "partialjust", "otherholderjust":
 			return true
 		}
 		return false
 	}
 	switch f.kind {
-	case "deal-garbage", "deal-wrongshare", "deal-misdirected", "deal-missing":
+	case "deal-garbage", "deal-wrongshare", "deal-misdirected", "deal-missing", "deal-badplaintext", "deal-relabel-far", "deal-relabel-dup":
 		tl := c11pTargets(holders, f.target)
 		for _, h := range tl {
 			s.dealBad[[2]int{b.id, h.id}] = f.kind
@@ -781,9 +865,47 @@ func (s *c11pSess) byzDeals(b *c11pParty) []*dkgp.DealBundle {
 		// no correct justification exists for such a deal
 		s.mustOut[b.id] = "resharing deal with the wrong constant term"
 		s.byzBadTo[b.id] = true
-	case "deal-badindex":
-		ct, _ := ecies.Encrypt(s.hs, b.pub, []byte("0123456789abcdef0123456789abcdef"), sha256.New)
-		bundle.Deals = append(bundle.Deals, dkgp.Deal{ShareIndex: c11pFarIndex + uint32(s.rng.IntN(7)), EncryptedShare: ct})
+	case "deal-extra-far":
+		s.byzBadTo[b.id] = true
+	case "deal-publen-zero":
+		bundle.Public = nil
+		b.published = nil
+		allBad("deal bundle without public polynomial")
+	case "deal-ghost-dealer":
+		// besides its own proper bundle, a second bundle in the name of a dealer index nobody has
+		g := c11pCloneDeal(s.hs, bundle)
+		g.DealerIndex = c11pFarIndex + 1
+		out = append(out, g)
+	case "deal-impersonate":
+		// besides its own proper bundle, a bundle in the name of an honest dealer (signed with the own key)
+		if vs := s.honestDealers(b); len(vs) > 0 {
+			g := c11pCloneDeal(s.hs, bundle)
+			g.DealerIndex = uint32(vs[0].oldIdx)
+			out = append(out, g)
+		}
+	case "deal-equivocate-sid":
+		// second bundle identical but for the session id
+		g := c11pCloneDeal(s.hs, bundle)
+		g.SessionID[len(g.SessionID)/2] ^= 0x01
+		out = append(out, g)
+		s.byzBadTo[b.id] = true
+	case "deal-equivocate-cipher":
+		// second bundle identical but for one deal's ciphertext (a fresh encryption of the same valid share)
+		g := c11pCloneDeal(s.hs, bundle)
+		for k := range g.Deals {
+			if h := holders[0]; g.Deals[k].ShareIndex == uint32(h.newIdx) {
+				msg, _ := poly.Eval(uint32(h.newIdx)).V.MarshalBinary()
+				g.Deals[k].EncryptedShare, _ = ecies.Encrypt(s.hs, h.pub, msg, sha256.New)
+			}
+		}
+		out = append(out, g)
+		s.byzBadTo[b.id] = true
+	case "deal-equivocate-public":
+		// second bundle identical but for the last coefficient of the public polynomial
+		g := c11pCloneDeal(s.hs, bundle)
+		g.Public[len(g.Public)-1] = s.hs.Point().Pick(s.rng.Stream())
+		out = append(out, g)
+		b.published = nil
 		s.byzBadTo[b.id] = true
 	case "deal-publen-short":
 		bundle.Public = bundle.Public[:len(bundle.Public)-1]
@@ -807,6 +929,9 @@ func (s *c11pSess) byzDeals(b *c11pParty) []*dkgp.DealBundle {
 		s.byzBadTo[b.id] = true
 	case "deal-badsig", "deal-late":
 		allBad(f.kind + ": no authentic deal bundle arrives in the deal phase")
+	}
+	if f.kind == "deal-relabel-far" {
+		s.byzBadTo[b.id] = true
 	}
 	for _, x := range out {
 		x.Signature = s.sign(b, x)
@@ -869,8 +994,90 @@ func (s *c11pSess) byzResponses(b *c11pParty) []*dkgp.ResponseBundle {
 		}
 		out = append(out, mk(rs, s.nonce))
 	case "resp-baddealer":
-		rs := append(base(), dkgp.Response{DealerIndex: c11pFarIndex + uint32(s.rng.IntN(7)), Status: dkgp.Complaint})
+		// a response naming a dealer nobody is, placed first / in the middle / last
+		rs := base()
+		if !s.scn.fast && len(victims) > 0 {
+			rs = setStatus(rs, victims[0].oldIdx, dkgp.Complaint) // so that the list has a real entry to sit next to
+		}
+		bad := dkgp.Response{DealerIndex: c11pFarIndex + uint32(s.rng.IntN(7)), Status: dkgp.Complaint}
+		at := len(rs)
+		switch f.pos {
+		case "first":
+			at = 0
+		case "mid":
+			at = len(rs) / 2
+		}
+		rs = append(rs[:at:at], append([]dkgp.Response{bad}, rs[at:]...)...)
 		out = append(out, mk(rs, s.nonce))
+	case "resp-dupdealer":
+		// two entries about the same honest dealer: complaint then success (cs) or success then complaint (sc)
+		rs := base()
+		if len(victims) > 0 {
+			v := uint32(victims[0].oldIdx)
+			var keep []dkgp.Response
+			for _, x := range rs {
+				if x.DealerIndex != v {
+					keep = append(keep, x)
+				}
+			}
+			a, c := dkgp.Response{DealerIndex: v, Status: dkgp.Complaint}, dkgp.Response{DealerIndex: v, Status: dkgp.Success}
+			if f.pos == "sc" {
+				a, c = c, a
+			}
+			rs = append(keep, a, c)
+		}
+		out = append(out, mk(rs, s.nonce))
+	case "resp-order":
+		rs := base()
+		for _, v := range victims {
+			rs = setStatus(rs, v.oldIdx, dkgp.Complaint)
+		}
+		for i, j := 0, len(rs)-1; i < j; i, j = i+1, j-1 {
+			rs[i], rs[j] = rs[j], rs[i]
+		}
+		out = append(out, mk(rs, s.nonce))
+	case "resp-ghost-holder":
+		// besides the own proper answer, a bundle in the name of a share-holder index nobody has
+		if rs := base(); len(rs) > 0 {
+			out = append(out, mk(rs, s.nonce))
+		}
+		var rs []dkgp.Response
+		for _, d := range s.honestDealers(b) {
+			rs = append(rs, dkgp.Response{DealerIndex: uint32(d.oldIdx), Status: dkgp.Complaint})
+		}
+		g := mk(rs, s.nonce)
+		g.ShareIndex = c11pFarIndex + 2
+		out = append(out, g)
+	case "resp-impersonate":
+		// besides the own proper answer, complaints in the name of an honest share holder (signed with the own key)
+		if rs := base(); len(rs) > 0 {
+			out = append(out, mk(rs, s.nonce))
+		}
+		if hs := s.honestHolders(b); len(hs) > 0 {
+			var rs []dkgp.Response
+			for _, d := range s.honestDealers(b) {
+				rs = append(rs, dkgp.Response{DealerIndex: uint32(d.oldIdx), Status: dkgp.Complaint})
+			}
+			g := mk(rs, s.nonce)
+			g.ShareIndex = uint32(hs[0].newIdx)
+			out = append(out, g)
+		}
+	case "just-impersonate":
+		// a false complaint now, so that the justification phase happens; the forged justification comes later
+		rs := base()
+		for _, v := range victims {
+			rs = setStatus(rs, v.oldIdx, dkgp.Complaint)
+		}
+		out = append(out, mk(rs, s.nonce))
+	case "resp-equivocate-sid":
+		// two bundles identical but for the session id
+		rs := base()
+		for _, v := range victims {
+			rs = setStatus(rs, v.oldIdx, dkgp.Complaint)
+		}
+		sid := c11pBytes(s.nonce)
+		sid[len(sid)/3] ^= 0x10
+		out = append(out, mk(rs, s.nonce), mk(append([]dkgp.Response(nil), rs...), sid))
 	case "resp-success-nonfast":
 		rs := base()
 		for _, d := range s.oldMembers() {
@@ -918,13 +1125,37 @@ func (s *c11pSess) byzResponses(b *c11pParty) []*dkgp.ResponseBundle {
 // byzJustifs builds the justification bundle(s) of a Byzantine dealer given the share indices
 // that complained about it in any response bundle that was broadcast.
 func (s *c11pSess) byzJustifs(b *c11pParty, complainers []uint32) []*dkgp.JustificationBundle {
+	f := b.fault
+	if f.kind == "just-impersonate" {
+		// a justification in the name of the honest dealer it complained about, revealing a wrong share
+		vs := c11pTargets(s.honestDealers(b), f.target)
+		hs := s.honestHolders(b)
+		if len(vs) == 0 || len(hs) == 0 || b.newIdx < 0 {
+			return nil
+		}
+		jb := &dkgp.JustificationBundle{DealerIndex: uint32(vs[0].oldIdx), SessionID: c11pBytes(s.nonce),
+			Justifications: []dkgp.Justification{{ShareIndex: uint32(b.newIdx), Share: s.hs.Scalar().Pick(s.rng.Stream())}}}
+		jb.Signature = s.sign(b, jb)
+		return []*dkgp.JustificationBundle{jb}
+	}
+	if f.kind == "just-ghost-dealer" && b.oldIdx >= 0 {
+		// a justification bundle in the name of a dealer index nobody has
+		hs := s.honestHolders(b)
+		if len(hs) == 0 {
+			return nil
+		}
+		jb := &dkgp.JustificationBundle{DealerIndex: c11pFarIndex + 4, SessionID: c11pBytes(s.nonce),
+			Justifications: []dkgp.Justification{{ShareIndex: uint32(hs[0].newIdx), Share: s.hs.Scalar().Pick(s.rng.Stream())}}}
+		jb.Signature = s.sign(b, jb)
+		return []*dkgp.JustificationBundle{jb}
+	}
 	if b.oldIdx < 0 || len(b.polys) == 0 || len(complainers) == 0 {
 		return nil
 	}
-	f := b.fault
 	policy := f.just
 	switch f.kind {
-	case "absent", "deal-publen-short", "deal-publen-long", "deal-sid", "deal-badindex", "deal-badsig", "deal-late", "deal-equivocate":
+	case "absent", "deal-publen-short", "deal-publen-long", "deal-publen-zero", "deal-sid", "deal-extra-far", "deal-relabel-far", "deal-badsig", "deal-late",
+		"deal-equivocate", "deal-equivocate-sid", "deal-equivocate-cipher", "deal-equivocate-public":
 		return nil
 	}
 	if policy == "" {
@@ -955,8 +1186,40 @@ func (s *c11pSess) byzJustifs(b *c11pParty, complainers []uint32) []*dkgp.Justif
 	case "dupjust":
 		x := mk(complainers, false, s.nonce)
 		out = append(out, x, c11pCloneJust(s.hs, x))
-	case "equivjust":
+	case "equivocate-share":
 		out = append(out, mk(complainers, false, s.nonce), mk(complainers, true, s.nonce))
+	case "equivocate-sid":
+		sid := c11pBytes(s.nonce)
+		sid[7] ^= 0x04
+		out = append(out, mk(complainers, false, s.nonce), mk(complainers, false, sid))
+	case "otherholderjust":
+		// reveals the valid share of a holder that did not complain instead of the complainer's
+		var other []uint32
+		for _, h := range s.newMembers() {
+			isC := false
+			for _, c := range complainers {
+				if uint32(h.newIdx) == c {
+					isC = true
+				}
+			}
+			if !isC && h.id != b.id {
+				other = append(other, uint32(h.newIdx))
+			}
+		}
+		if len(other) == 0 {
+			return nil
+		}
+		out = append(out, mk(other[:1], false, s.nonce))
+	case "dupidxjust":
+		// two entries for the same complainer: correct then wrong (cw) or wrong then correct (wc)
+		x := mk(complainers[:1], false, s.nonce)
+		y := mk(complainers[:1], true, s.nonce)
+		if f.pos == "wc" {
+			x, y = y, x
+		}
+		x.Justifications = append(x.Justifications, y.Justifications...)
+		x.Justifications = append(x.Justifications, mk(complainers[1:], false, s.nonce).Justifications...)
+		out = append(out, x)
 	case "sidjust":
 		sid := c11pBytes(s.nonce)
 		sid[0] ^= 0x80
@@ -965,7 +1228,12 @@ func (s *c11pSess) byzJustifs(b *c11pParty, complainers []uint32) []*dkgp.Justif
 		out = append(out, mk(complainers[:1], false, s.nonce))
 	case "badidxjust":
 		x := mk(complainers, false, s.nonce)
-		x.Justifications = append(x.Justifications, dkgp.Justification{ShareIndex: c11pFarIndex, Share: s.hs.Scalar().Pick(s.rng.Stream())})
+		bad := dkgp.Justification{ShareIndex: c11pFarIndex, Share: s.hs.Scalar().Pick(s.rng.Stream())}
+		if f.pos == "first" {
+			x.Justifications = append([]dkgp.Justification{bad}, x.Justifications...)
+		} else {
+			x.Justifications = append(x.Justifications, bad)
+		}
 		out = append(out, x)
 	}
 	for _, x := range out {
@@ -997,7 +1265,12 @@ func c11pComplainersOf(resps []*dkgp.ResponseBundle, d uint32) []uint32 {
 // order returns the per-recipient delivery order of k broadcast messages of a phase: the
 // identity for delivery variant 0, a seeded permutation otherwise; dup says which positions are
 // delivered a second time (used where duplicates are part of the quantifier).
-func (s *c11pSess) order(phase string, recipient, k int, allowDup bool) []int {
+//
+// groups[i] names the (Byzantine sender, packet type) of message i or is empty: when one sender
+// broadcast two packets of a type (an equivocation pair or a rebroadcast), honest recipients of even
+// and odd rank receive the two in opposite relative order, so that "seen in different orders by
+// different nodes" holds in every such session and not only when the permutations happen to differ.
+func (s *c11pSess) order(phase string, recipient, k int, allowDup bool, groups []string) []int {
 	ord := make([]int, k)
 	for i := range ord {
 		ord[i] = i
@@ -1011,6 +1284,47 @@ func (s *c11pSess) order(phase string, recipient, k int, allowDup bool) []int {
 				x := ord[g.IntN(len(ord))]
 				pos := g.IntN(len(ord) + 1)
 				ord = append(ord[:pos], append([]int{x}, ord[pos:]...)...)
+			}
+		}
+	}
+	if s.scn.dv > 0 && len(groups) == k {
+		rank := 0
+		for _, p := range s.parties {
+			if p.honest && p.id < recipient {
+				rank++
+			}
+		}
+		first := map[string]int{}
+		done := map[string]bool{}
+		for i, g := range groups {
+			if g == "" || done[g] {
+				continue
+			}
+			a, ok := first[g]
+			if !ok {
+				first[g] = i
+				continue
+			}
+			done[g] = true
+			// a < i are the two packets of the pair: first positions in the order
+			pa, pb := -1, -1
+			for pos, m := range ord {
+				if m == a && pa < 0 {
+					pa = pos
+				}
+				if m == i && pb < 0 {
+					pb = pos
+				}
+			}
+			wantAFirst := (rank+s.scn.dv)%2 == 0
+			if pa >= 0 && pb >= 0 && (pa < pb) != wantAFirst {
+				for pos, m := range ord {
+					if m == a {
+						ord[pos] = i
+					} else if m == i {
+						ord[pos] = a
+					}
+				}
 			}
 		}
 	}
